@@ -498,6 +498,109 @@ def r7_crlf_sniff(ctx):
     ctx.ob(g.where, "delimited formats: the last field of each line ends before a '\\r' that precedes the newline (on a copy of the end table)", ok, "", key="C01-R7|delimited-adjust")
 
 
+_SHRINK = (ast.FloorDiv, ast.Div, ast.Sub, ast.RShift, ast.Mod)
+
+
+def _may_shrink(expr) -> bool:
+    for n in ast.walk(expr):
+        if isinstance(n, ast.BinOp) and isinstance(n.op, _SHRINK):
+            return True
+        if isinstance(n, ast.Call) and u(n.func) in ("min", "np.minimum", "int", "round"):
+            return True
+    return False
+
+
+def _floor_one(expr) -> bool:
+    """max(k, ...) / np.maximum(k, ...) with a constant k >= 1 among the operands"""
+    if isinstance(expr, ast.Call) and u(expr.func) in ("max", "np.maximum"):
+        for a in expr.args:
+            p = sym.poly(a)
+            if p.is_const() and p.const_value() >= 1:
+                return True
+    return False
+
+
+def r8_request_and_terminator(ctx):
+    """(a) a zero-byte read is how end of file is recognised (`bytes_read == 0` -> None; short read -> finished), so the size asked of the file
+    must be >= 1 whenever the caller's chunk size is: the reader may not shrink it.  (b) the end-of-file terminator built from a sample of the
+    pending bytes must not queue the sampled bytes a second time.  (c) multi-line FASTA: the carriage-return sniff is existential."""
+    ix = ctx.index
+    for qn in ("NumpyFileReader.read_chunk", "NumpyFileReader.read_chunks", "NumpyFileReader._get_buffer", "NumpyFileReader.__read_raw_chunk"):
+        f = ix.func(PARSER, qn)
+        size = f.params[1]
+        writes = [n for n in body_walk(f.node) if (isinstance(n, ast.Assign) and any(u(t) == size for t in n.targets)) or
+                  (isinstance(n, ast.AugAssign) and u(n.target) == size)]
+        for w in writes:
+            val = w.value
+            if isinstance(w, ast.AugAssign):
+                shr = isinstance(w.op, _SHRINK) or _may_shrink(val)
+            else:
+                shr = _may_shrink(val) and not _floor_one(val)
+            if shr:
+                ctx.ob(f.where, "the number of bytes requested from the file is never reduced below the caller's chunk size (a request of 0 bytes reads nothing and is taken for end of file)",
+                       False, u(w), key=f"C01-R8|request-size|{qn}")
+            elif not _floor_one(val):
+                raise Unrecognised(f"{f.where}: chunk size parameter is reassigned in a form the checker cannot bound: {u(w)}")
+        if not writes:
+            ctx.ob(f.where, "the chunk size parameter reaches the read request unshrunk (never reassigned)", True, "", key=f"C01-R8|request-size-ok|{qn}")
+        ctx.count("chunk-size parameters checked", 1)
+    f = ix.func(PARSER, "NumpyFileReader.read_chunk")
+    size = f.params[1]
+    gcalls = [c for c in func_calls(f.node) if u(c.func).endswith("_get_buffer")]
+    ctx.floor("raw read requests in read_chunk", len(gcalls), 1)
+    for c in gcalls:
+        ctx.ob(f.where, "read_chunk asks for min_chunk_size bytes per read", bool(c.args) and u(c.args[0]) == size, u(c), key="C01-R8|request-arg")
+    # (b) terminator built at end of file
+    pend, apps, _ = _pending_list(ctx, f)
+    term = [n for n in body_walk(f.node) if isinstance(n, ast.Assign) and isinstance(n.value, ast.Call) and u(n.value.func).endswith("__add_newline_to_end")]
+    ctx.floor("end-of-file terminator constructions in read_chunk", len(term), 1)
+    for t in term:
+        c = t.value
+        ctx.need(len(c.args) == 2, "terminator call does not have (bytes, count)")
+        sample, cnt = c.args
+        k = sym.poly(cnt)
+        ok_sample = isinstance(sample, ast.Subscript) and sym.canon(sample.value) == f"{pend}[-1]" and isinstance(sample.slice, ast.Slice) and sample.slice.upper is None \
+            and sample.slice.lower is not None and sym.poly(sample.slice.lower) == -k and k.is_const() and k.const_value() >= 1
+        if not ok_sample:
+            raise Unrecognised(f"{f.where}: end-of-file terminator is built from `{u(sample)}` with count `{u(cnt)}`: not the last k pending bytes")
+        tgt = t.targets[0]
+        ctx.need(isinstance(tgt, ast.Tuple) and isinstance(tgt.elts[0], ast.Name), "terminator call result is not unpacked into (chunk, count)")
+        v = tgt.elts[0].id
+        cuts = [n for n in body_walk(f.node) if isinstance(n, ast.Assign) and u(n.targets[0]) == v and isinstance(n.value, ast.Subscript) and u(n.value.value) == v
+                and n.lineno > t.lineno]
+        if not cuts:
+            ctx.ob(f.where, "the bytes sampled from the pending data to build the end-of-file terminator are cut off again before the terminator is queued "
+                   "(they are already queued)", False, "no cut found", key="C01-R8|terminator-cut")
+            continue
+        sl = cuts[0].value.slice
+        if isinstance(sl, ast.Slice) and sl.upper is None and sl.step is None and sl.lower is not None and sym.poly(sl.lower) == k:
+            ok = True
+        elif isinstance(sl, ast.Slice) and sl.lower is None:
+            ok = False          # a prefix keeps the sampled bytes
+        else:
+            raise Unrecognised(f"{f.where}: cut of the terminator chunk has an unknown form: {u(cuts[0])}")
+        ctx.ob(f.where, "the bytes sampled from the pending data to build the end-of-file terminator are cut off again before the terminator is queued "
+               "(they are already queued)", ok, u(cuts[0]), key="C01-R8|terminator-cut")
+    # (c) multi-line FASTA CR sniff
+    m = ix.func("bionumpy.io.multiline_buffer", "MultiLineFastaBuffer._modify_ends_for_carriage_returns")
+    le, data = m.params[1], m.params[2]
+    rets = [n for n in body_walk(m.node) if isinstance(n, ast.Return)]
+    adj = [r for r in rets if sym.canon(r.value) == sym.canon(sym.parse_expr(f"{le} - ({data}[{le} - 1] == '\\r')"))]
+    ctx.ob(m.where, "multi-line FASTA: every line end preceded by '\\r' is moved back by one (per line)", bool(adj), "; ".join(u(r.value) for r in rets), key="C01-R8|multiline-adjust")
+    for t in [n for n in body_walk(m.node) if isinstance(n, ast.If)]:
+        if not any(r in adj for r in ast.walk(t)):
+            continue
+        test = t.test
+        if isinstance(test, ast.Call) and u(test.func) in ("np.any", "any"):
+            ok = True
+        elif isinstance(test, ast.Call) and u(test.func) in ("np.all", "all"):
+            ok = False
+        else:
+            raise Unrecognised(f"{m.where}: carriage-return sniff has an unknown form: {u(test)}")
+        ctx.ob(m.where, "multi-line FASTA: the adjustment is applied as soon as ANY sampled line ends in '\\r' (the last line of a file without final newline "
+               "has none, so requiring all sampled lines would skip the adjustment for a short last chunk)", ok, u(test), key="C01-R8|multiline-sniff")
+
+
 RULES = [
     ("C01-R7", r7_crlf_sniff),
     ("C01-R6", r6_cross_chunk_scan),
@@ -506,4 +609,5 @@ RULES = [
     ("C01-R3", r3_eof_marker),
     ("C01-R4", r4_every_format_cuts),
     ("C01-R5", r5_stream_termination),
+    ("C01-R8", r8_request_and_terminator),
 ]
